@@ -52,13 +52,16 @@ ASSUMPTIONS = [
     "strings destined for slice/map fields are not JSON texts (fillSliceFromString/fillMapFromString hand the text to "
     "encoding/json); strings for float elements are not numerals; Duration strings have no fraction",
     "object keys are distinct; range bounds are integers of magnitude <= 2^53",
-    "an absent required map field becomes an empty map without error (finding, c05_required_map_refuted): such "
-    "inputs are excluded from the main stream and classified 'required-map-absent'",
     "inside a partially filled optional embedded struct absent fields keep zero even when they declare a default "
     "(processAnonymousFieldOptional): generator declares no defaults there",
     "conf: empty arrays become nil slices (toCamelCaseInterface) and map keys are camel-cased too: conf variants use "
     "documents without empty arrays and with lower-case map keys",
-    "c05_roundtrip (httpc.buildRequest -> httpx.Parse) is not modelled: covered by no theorem",
+    "c05_roundtrip (httpc.buildRequest -> httpx.Parse): correspondence only (12% of the cases: request structs with "
+    "path/form/header/json parts sent through an httptest server); well-formedness: path/form/header strings non-empty "
+    "(an optional form string may be empty), no '/' and no '.'/'..' in path values, header values trimmed, header names "
+    "not managed by net/http, required pointers/slices/maps non-empty, no Duration members (encoding/json writes "
+    "them as numbers, which Parse rejects), no []uint8 members (written as base64 text, which Parse rejects), "
+    "uint64 below 2^63, floats exactly representable",
 ]
 DRIVER_TIMEOUT = 900
 
@@ -376,16 +379,13 @@ def gen_obj(rng, t, mode):
     for f in flat_fields(t):
         o = f["o"]
         required = not o["optional"] and o["default"] is None
-        is_map = deref(f["t"])["k"] == "map"
         p_present = 1.0 if required else 0.6
-        if mode == "mixed" and not is_map:
+        if mode == "mixed":
             p_present -= 0.1
-        if is_map and required:
-            p_present = 1.0          # absent required maps: known finding, kept out of the main stream
         if rng.random() >= p_present:
             continue
         if rng.random() < 0.05 and (mode == "mixed" or o["optional"]):
-            pairs.append((f["key"], NULL if not (is_map and required) else O([])))
+            pairs.append((f["key"], NULL))
             continue
         pairs.append((f["key"], gen_value(rng, f["t"], o, mode)))
     if rng.random() < 0.1:
@@ -593,6 +593,9 @@ def directed(rng):
     one({"k": "slice", "e": P("int")}, mkopts(optional=True), O([]), "optional-absent")
     one(inner, mkopts(optional=True), O([]), "optional-absent")
     one(P("int"), None, O([]), "required-absent")
+    one({"k": "map", "e": P("int")}, None, O([]), "required-absent")
+    one({"k": "slice", "e": P("int")}, None, O([]), "required-absent")
+    one(struct([field("M", "m", {"k": "map", "e": P("str")})]), None, O([("v", O([]))]), "required-absent")
     one(P("int"), mkopts(default="5"), O([]), "default-absent")
     one(P("int"), mkopts(default="5"), O([("v", N(9))]), "default-present")
     one(P("str"), mkopts(default="dflt"), O([("v", S("abc"))]), "default-present")
@@ -609,6 +612,98 @@ def directed(rng):
     one(P("str"), mkopts(options=["a", "b"]), O([("v", S("a"))]), "options")
     one(P("int"), mkopts(options=["1", "2"]), O([("v", N(3))]), "options")
     return out
+
+
+# ----------------------------------------------------------------------------- httpc -> httpx round trip
+RT_PATH_STR = ["abc", "a b", "x-1", "A_z.~", "100%", "q?x", "a#b", "a+b", "a%2Fb", "v1", "0"]
+RT_FORM_STR = ["abc", "a b", "x&y=z", "100%", "a+b", "/p/q", "0", "true"]
+RT_HDR_STR = ["abc", "a b", "tok;en=1", "x, y", "0"]
+RT_HDR_KEYS = ["X-Token", "X-Trace-Id", "x-lower", "Accept-Language", "X-Count"]
+RT_SCALARS = ["str", "bool"] + list(INT_KINDS)
+
+
+def rt_scalar(rng, k, strs):
+    """(type, value in Dump format) of a scalar that survives fmt.Sprint -> parse"""
+    if k == "str":
+        return ["s", rng.choice(strs)]
+    if k == "bool":
+        return ["b", rng.random() < 0.5]
+    if k in ("f32", "f64"):
+        return ["f", rng.choice(CANON_FLOATS)]
+    lo, hi = int_bounds(k)
+    hi = min(hi, (1 << 63) - 1)          # uint64 above 2^63-1 is not accepted back (json.Number.Int64)
+    return ["i", str(rng.choice([0, 1, 5, hi, lo, rng.randint(lo, hi), rng.randint(max(lo, -1000), min(hi, 1000))]))]
+
+
+def rt_json_value(rng, depth):
+    """(type, opts, value) for a json-tagged member"""
+    r = rng.random()
+    ks = RT_SCALARS + ["f32", "f64"]
+    if r < 0.55 or depth <= 0:
+        k = rng.choice(ks)
+        v = rt_scalar(rng, k, STRS)
+        o = mkopts(optional=rng.random() < 0.3)
+        if k in INT_KINDS and rng.random() < 0.15:
+            o["string"] = True
+        return P(k), o, v
+    if r < 0.65:
+        k = rng.choice(ks)
+        if rng.random() < 0.25:
+            return {"k": "ptr", "e": P(k)}, mkopts(optional=True), ["np"]
+        return {"k": "ptr", "e": P(k)}, mkopts(optional=rng.random() < 0.3), ["p", rt_scalar(rng, k, STRS)]
+    if r < 0.8:
+        k = rng.choice([x for x in ks if x != "uint8"])     # []uint8 is []byte: encoding/json writes base64, Parse refuses
+        n = rng.randint(1, 3)
+        return {"k": "slice", "e": P(k)}, mkopts(optional=rng.random() < 0.3), ["sl", [rt_scalar(rng, k, NONNUM if k == "str" else STRS) for _ in range(n)]]
+    if r < 0.9:
+        k = rng.choice([x for x in ks if x != "str"] + ["str"])
+        keys = sorted(rng.sample(MAPKEYS, rng.randint(1, 3)))
+        return {"k": "map", "e": P(k)}, mkopts(optional=rng.random() < 0.3), ["m", [[key, rt_scalar(rng, k, STRS)] for key in keys]]
+    fs, vs = [], []
+    for i, key in enumerate(rng.sample(["a", "b", "name", "size"], rng.randint(1, 3))):
+        t, o, v = rt_json_value(rng, 0)
+        fs.append(field("N%d" % i, key, t, o))
+        vs.append(v)
+    return struct(fs), mkopts(), ["st", vs]
+
+
+def rt_case(rng):
+    fs, vs, segs = [], [], ["api"]
+    pnames = rng.sample(["id", "name", "kind"], rng.choice([0, 1, 1, 2]))
+    for i, nm in enumerate(pnames):
+        k = rng.choice(RT_SCALARS)
+        f = field("P%d" % i, nm, P(k))
+        f["tag"] = 'path:"%s"' % nm
+        fs.append(f)
+        vs.append(rt_scalar(rng, k, RT_PATH_STR))
+        segs += [":" + nm, rng.choice(["items", "x", "v2"])]
+    for i, nm in enumerate(rng.sample(["q", "page", "sort", "flag"], rng.choice([0, 1, 2, 3]))):
+        k = rng.choice(RT_SCALARS)
+        opt = rng.random() < 0.3
+        f = field("Q%d" % i, nm, P(k), mkopts(optional=opt))
+        f["tag"] = 'form:"%s%s"' % (nm, ",optional" if opt else "")
+        v = rt_scalar(rng, k, RT_FORM_STR)
+        if opt and k == "str" and rng.random() < 0.3:
+            v = ["s", ""]
+        fs.append(f)
+        vs.append(v)
+    for i, nm in enumerate(rng.sample(RT_HDR_KEYS, rng.choice([0, 1, 2]))):
+        k = rng.choice(["str", "str", "int", "uint16", "bool"])
+        f = field("H%d" % i, nm, P(k))
+        f["tag"] = 'header:"%s"' % nm
+        fs.append(f)
+        vs.append(rt_scalar(rng, k, RT_HDR_STR))
+    njson = rng.choice([0, 1, 2, 3, 4])
+    for i, nm in enumerate(rng.sample(["a", "b", "name", "userName", "size", "tags"], njson)):
+        t, o, v = rt_json_value(rng, 1)
+        fs.append(field("J%d" % i, nm, t, o))
+        vs.append(v)
+    if not fs:
+        return rt_case(rng)
+    method = rng.choice(["POST", "PUT", "PATCH"]) if njson else rng.choice(["GET", "POST", "DELETE"])
+    c = mkcase(rng, struct([]), O([]), ["roundtrip"], with_yaml=False, with_conf=False)
+    c.update({"rt": True, "rt_shape": struct(fs), "value": ["st", vs], "method": method, "pattern": "/" + "/".join(segs)})
+    return c
 
 
 # ----------------------------------------------------------------------------- outside the modelled universe
@@ -683,15 +778,17 @@ def generate(rng, tier, n):
     cases = directed(rng)
     depth = 2
     while len(cases) < n:
-        if rng.random() < 0.12:
+        r0 = rng.random()
+        if r0 < 0.12:
             cases.append(outside_case(rng))
+            continue
+        if r0 < 0.24:
+            cases.append(rt_case(rng))
             continue
         shape = gen_struct(rng, depth)
         r = rng.random()
         mode = "good" if r < 0.7 else "mixed"
         doc = gen_obj(rng, shape, mode)
-        if absent_required_map(shape, doc):
-            continue                 # known finding (c05_required_map_refuted), kept out of the main stream
         cases.append(mkcase(rng, shape, doc, [mode]))
     return cases
 
@@ -709,12 +806,17 @@ def drive(cases, tier):
     co, log2 = run_driver("./lib/conf", c_in, name="C05c_" + tier, timeout=DRIVER_TIMEOUT)
     if co is None:
         return None, log2
+    r_in = [{"rt": True, "shape": c["rt_shape"], "value": c["value"], "method": c["method"], "pattern": c["pattern"]}
+            if c.get("rt") else {"rt": False} for c in cases]
+    ro, log3 = run_driver("./api/httpc", r_in, name="C05r_" + tier, timeout=DRIVER_TIMEOUT)
+    if ro is None:
+        return None, log3
     obs = []
-    for a, b in zip(mo, co):
-        if "error" in a or "error" in b:
-            return None, "driver error: %r %r" % (a, b)
-        obs.append({"j": a["j"], "y": a.get("y"), "c": b.get("c"), "camel": b["camel"]})
-    return obs, log1 + log2
+    for a, b, r in zip(mo, co, ro):
+        if "error" in a or "error" in b or "error" in r:
+            return None, "driver error: %r %r %r" % (a, b, r)
+        obs.append({"j": a["j"], "y": a.get("y"), "c": b.get("c"), "camel": b["camel"], "rt": r if r else None})
+    return obs, log1 + log2 + log3
 
 
 # ----------------------------------------------------------------------------- encode
@@ -841,16 +943,29 @@ def encode(case, obs):
     if case["conf"] and obs.get("c") is not None:
         c = cpair(c_jv(case["cdoc"]), c_obs(obs["c"]))
     keys = clist([cpair(cstr(k), cstr(v)) for k, v in zip(case["keys"], obs["camel"])])
-    return "(mkcase %s %s %s %s %s %s %s)" % (c_ty(case["shape"]), c_jv(case["doc"]), c_obs(obs["j"]), copt(y), copt(c), keys,
-                                              cbool("outside" in case["label"]))
+    rt = None
+    if case.get("rt"):
+        r = obs["rt"]
+        parsed = r["rt"] if r.get("build", {}).get("r") == "ok" and "rt" in r else {"r": "err"}
+        rt = cpair(c_val(case["value"]), c_val(r["orig"]), c_obs(parsed))
+    return "(mkcase %s %s %s %s %s %s %s %s)" % (c_ty(case["shape"]), c_jv(case["doc"]), c_obs(obs["j"]), copt(y), copt(c), keys,
+                                                 cbool("outside" in case["label"]), copt(rt))
 
 
 # ----------------------------------------------------------------------------- evidence helpers
 def nontrivial(case, obs):
+    if case.get("rt"):
+        return True
     return "directed" not in case["label"] and "outside" not in case["label"] and len(case["doc"][1]) > 0
 
 
 def bucket(case, obs):
+    if case.get("rt"):
+        r = obs["rt"]
+        out = ["stream:roundtrip", "rt-build:" + r.get("build", {}).get("r", "?"), "rt-parse:" + r.get("rt", {}).get("r", "none")]
+        for f in case["rt_shape"]["f"]:
+            out.append("rt-part:" + f["tag"].split(":")[0])
+        return out
     out = ["stream:" + case["label"][0], "json:" + obs["j"]["r"]]
     if obs.get("y") is not None and case["yaml"]:
         out.append("yaml:" + obs["y"]["r"])
@@ -874,13 +989,11 @@ def bucket(case, obs):
     return out
 
 
-def classify(case, obs):
-    if obs["j"]["r"] == "ok" and "outside" not in case["label"] and absent_required_map(case["shape"], case["doc"]):
-        return "required-map-absent"
-    return None
-
-
 def explain(case, obs):
+    if case.get("rt"):
+        return ("round trip: the request struct %s sent with httpc.buildRequest/DoRequest to %s %s was not parsed back by "
+                "httpx.Parse into an equal struct: %s" % (json.dumps(case["value"]), case["method"], case["pattern"],
+                                                          json.dumps(obs["rt"])[:600]))
     for name, o in (("UnmarshalJsonBytes", obs["j"]), ("UnmarshalYamlBytes", obs.get("y")), ("conf.LoadFromJsonBytes", obs.get("c"))):
         if o is not None and o["r"] == "panic":
             return "%s panicked (%s) on %s: the property says it never panics (c05_never_panics)" % (name, o.get("msg", ""), case["json"])
